@@ -247,6 +247,15 @@ pub fn run_stress(args: &Args, mut out: Out) {
             }
         };
         servlin::verif::start();
+        // One run in four: the application's logger has stopped (its receiver is gone), so every logging call inside the
+        // server returns an error.  Whatever the server wanted to report, its shutdown contract is unchanged.
+        let dead_logger = if sid % 4 == 2 {
+            let (s, r) = std::sync::mpsc::sync_channel::<servlin::log::internal::LogEvent>(1);
+            drop(r);
+            servlin::log::set_global_logger(s).ok()
+        } else {
+            None
+        };
         let permit = permit::Permit::new();
         let cache = temp_dir::TempDir::new().unwrap();
         let (addr, stopped) = executor
@@ -463,8 +472,9 @@ pub fn run_stress(args: &Args, mut out: Out) {
         if std::env::var_os("VERIF_LOUD").is_some() {
             eprintln!("sid {sid}: refill {:?} revoke+probe {:?} wind-down {:?}", d_refill, d_probe - d_refill, t_phase.elapsed() - d_probe);
         }
+        drop(dead_logger);
         let recs = servlin::verif::take();
-        out.ev(sid, "Reset", json!({"max": max, "clients": nclients, "refill": do_refill}));
+        out.ev(sid, "Reset", json!({"max": max, "clients": nclients, "refill": do_refill, "deadLogger": sid % 4 == 2}));
         for rec in recs {
             out.ev(sid, rec.kind, json!({"a": rec.a, "b": rec.b, "seq": rec.seq}));
         }
